@@ -204,6 +204,65 @@ theorem ipa_final_scalar_unique (bases1 bases2 : List G) (res1 res2 : G) (r : F)
   simp only [neg_smul, neg_inj] at h'
   rw [h', sub_self]
 
+/-- Binding of a single `L_j` at fixed challenges: two proofs that differ only in the left
+element of round `j` (whose challenge is invertible) cannot both be accepted. -/
+theorem ipa_L_unique (bases1 bases2 : List G) (res1 res2 : G) (r : F)
+    (upre upost : List (F × F)) (u ui : F) (hu : u * ui = 1)
+    (pre post : List (G × G)) (L L' R : G) (s : F)
+    (hpre : pre.length = upre.length) (hpost : post.length = upost.length)
+    (h1 : bases1.length = 2 ^ (upre ++ (u, ui) :: upost).length)
+    (h2 : bases2.length = 2 ^ (upre ++ (u, ui) :: upost).length)
+    (ha : verifierSum bases1 bases2 res1 res2 r (upre ++ (u, ui) :: upost)
+      { lrs := pre ++ (L, R) :: post, s := s } = 0)
+    (hb : verifierSum bases1 bases2 res1 res2 r (upre ++ (u, ui) :: upost)
+      { lrs := pre ++ (L', R) :: post, s := s } = 0) : L = L' := by
+  have hl : ∀ X : G, (pre ++ (X, R) :: post).length = (upre ++ (u, ui) :: upost).length := by
+    intro X; simp [hpre, hpost]
+  rw [verifierSum_split _ _ _ _ _ _ _ (hl L) h1 h2] at ha
+  rw [verifierSum_split _ _ _ _ _ _ _ (hl L') h1 h2] at hb
+  simp only [List.flatMap_append, List.flatMap_cons] at ha hb
+  rw [innerProduct_append _ _ _ _ (by rw [length_flatMap_pair, length_flatMap_pair, hpre])] at ha hb
+  simp only [List.cons_append, List.nil_append, innerProduct_cons] at ha hb
+  have h := ha.trans hb.symm
+  have h' : (u * u) • L = (u * u) • L' := by
+    have := add_right_cancel h
+    have := add_left_cancel this
+    exact add_right_cancel this
+  have := congrArg (fun x => (ui * ui) • x) h'
+  simp only [smul_smul] at this
+  have e : ui * ui * (u * u) = 1 := by
+    have : ui * ui * (u * u) = (u * ui) * (u * ui) := by ring
+    rw [this, hu, one_mul]
+  rwa [e, one_smul, one_smul] at this
+
+/-- Effect of altering one base at fixed challenges: replacing `bases1[i]` by `bases1[i] + δ`
+changes the verifier's sum by `ipa_scalars[i] • δ = (−s · coeffAt us i) • δ`; an accepted proof
+stays accepted only if that term vanishes. -/
+theorem ipa_base_alteration (pre post bases2 : List G) (B δ res1 res2 : G) (r : F) (us : List (F × F))
+    (pf : IpaProof F G) (hl : pf.lrs.length = us.length)
+    (h1 : (pre ++ B :: post).length = 2 ^ us.length) (h2 : bases2.length = 2 ^ us.length) :
+    verifierSum (pre ++ (B + δ) :: post) bases2 res1 res2 r us pf =
+      verifierSum (pre ++ B :: post) bases2 res1 res2 r us pf + (-pf.s * coeffAt us pre.length) • δ := by
+  have h1' : (pre ++ (B + δ) :: post).length = 2 ^ us.length := by simpa using h1
+  rw [verifierSum_split _ _ _ _ _ _ _ hl h1 h2, verifierSum_split _ _ _ _ _ _ _ hl h1' h2]
+  have hi : pre.length < 2 ^ us.length := by rw [← h1]; simp
+  have hidx := (ipa_scalars_index pf.s us).2 pre.length hi
+  have hlen := (ipa_scalars_index pf.s us).1
+  -- split the scalar vector at the position of the altered base
+  set c := ipaScalars pf.s us with hc
+  have hsplit : c = c.take pre.length ++ c.getD pre.length 0 :: c.drop (pre.length + 1) := by
+    have hlt : pre.length < c.length := by rw [hlen]; exact hi
+    rw [List.getD_eq_getElem?_getD, List.getElem?_eq_getElem hlt]
+    simp
+  have key : ∀ X : G, innerProduct c (pre ++ X :: post) =
+      innerProduct (c.take pre.length) pre + (c.getD pre.length 0 • X +
+        innerProduct (c.drop (pre.length + 1)) post) := by
+    intro X
+    conv => lhs; rw [hsplit]
+    rw [innerProduct_append _ _ _ _ (by rw [List.length_take, hlen]; omega), innerProduct_cons]
+  rw [key, key, hidx]
+  module
+
 /-- Prover and verifier of the argument perform the same sequence of transcript operations
 (absorb all bases and both claims, squeeze `r`, then per round two group elements and a squeeze,
 then the final scalar), for every length: they derive the same challenges. -/
